@@ -293,6 +293,11 @@ class Simulation:
         # Distribute random instance to power system components
         self.distribute_random_instance(random_instance)
 
+        # A previous run on the same system leaves its end state and its
+        # histories behind, the run starts from the normal state
+        reset_system(self.power_system, save_flag)
+        self.fail_duration = Time(0)
+
         # Prepare power system for simulation
         time_array = prepare_system(
             power_system=self.power_system,
